@@ -1578,7 +1578,8 @@ class CommandTask : public Task {
       // Execute the command, with notifications to the delegate.
       command.execute(getBuildSystem(ti).getBuildSystem(), ti, context, [ti](BuildValue&& result) mutable {
         // Inform the engine of the result.
-        if (result.isFailedCommand()) {
+        if (result.isFailedCommand() ||
+            (result.isCancelledCommand() && !ti.isCancelled())) {
           getBuildSystem(ti).getDelegate().hadCommandFailure();
         }
         ti.complete(result.toData());
